@@ -11,11 +11,12 @@ PROP = "C06"
 NEED_JSONSCHEMA = True
 SHARDS = {"quick": 8, "thorough": 16}
 TIME_CAP = {"quick": 70, "thorough": 900}
-REQUIRED = ["agree_valid", "agree_invalid", "programs", "meta_schema_checks", "per_call_schema_programs", "std_programs", "all_refs_programs", "recursive_programs"]
+REQUIRED = ["agree_valid", "agree_invalid", "programs", "meta_schema_checks", "per_call_schema_programs", "std_programs", "all_refs_programs", "recursive_programs", "discriminated_families", "discriminated_agree"]
 RULE = ("C01 program space + standard-library converted types (UUID, date/datetime/time, Decimal, bytes, Path, ip addresses, Pattern) x JSON data "
         "(atoms, model-valid data, boundary mutants, random deep JSON) x additional_properties x aliaser x all_refs x per-call schema=; data outside the common "
         "semantic domain are skipped and counted (integer-valued floats, duplicate items with set-typed positions, ill-formatted strings at format-only positions). "
-        "A case = (type signature, options, datum); distinct by hash; non-trivial unless the type is a bare primitive and the datum an atom.")
+        "A case = (type signature, options, datum); distinct by hash; non-trivial unless the type is a bare primitive and the datum an atom."
+        ' Plus discriminated-union families (vf/disc.py: inherited @discriminator bases incl. dataclass bases, multi-level and recursive hierarchies, Annotated unions with Literal / str tag fields, TypedDict alternatives, explicit mappings, override_implicit, type_name overrides) x entry types {bare, List, Optional, Dict, subset union, holder class} x data aimed at each alternative with tag / field mutants.')
 ASSUMPTIONS = ["jsonschema Draft202012Validator (format as annotation) is the trusted oracle for the schema side; patterns generated start with ^ and use the regex subset common to Python and ECMA",
                "a schema failing its meta-schema makes the case inconclusive here (it is C17's violation)",
                "known finding F22 is attributed only when the explanatory defect model (drop additionalProperties:false from the allOf branches of a flattened object) makes schema and deserialize agree exactly"]
@@ -270,6 +271,8 @@ def COLL_IS_SET(n):
 
 def run(env):
     harness.tag_errors(True)
+    from vf import disc
+    disc.run_family(env, disc.check_c06, env.n(96, 4000))  # discriminated-union families first (their own budget)
     rng = env.rng
     n = env.n(2600, 60000)
     small = [b for _, b in gen_types.enumerate_small(depth2=False)]
